@@ -2,8 +2,10 @@
 //! `Module<BE>`).
 //!
 //! stdin : `id be=<ntt120ref|fft64ref|ntt120avx|fft64avx> n=N base2k=B keys=k1,k2,… pool=size:delta:budget/… \
-//!          ops=op;op;… [vals=1] [mag=M]`      (op syntax: lean/Poulpy/Driver/Ckks.lean)
+//!          ops=op;op;… [vals=1] [mag=M] [cstexp=E]`      (op syntax: lean/Poulpy/Driver/Ckks.lean)
 //!         `id roundtrip n=N base2k=B delta=D budget=L mag=M`   (encode → to_znx → decode identity)
+//!         `id toznx float=f64|f128 form=vec|cst base2k=B delta=D budget=L [k=K] vals=m:e[+m:e…];…|nan|inf|-inf|-`
+//!                                                              (the float → integer conversion of to_znx / to_znx_at_k on exact inputs)
 //! stdout: `id step|step|… [value-diagnostics]`, a step being `ok@POOL`, `err:<Variant:fields>@POOL`
 //!         or `panic:<class>` (execution stops), POOL = `delta.budget.size` per slot joined by `/`.
 //!         With `vals=1` a second token lists, per step, `-` or `log2(max slot error):log_delta`
@@ -66,6 +68,7 @@ thread_local! {
     /// `dump=1`: (active, generator state, limbs of the last ZNX plaintext operand built)
     static DUMP_PT: std::cell::RefCell<(bool, u64, String)> = std::cell::RefCell::new((false, 0, String::new()));
     static LAST_PANIC: std::cell::RefCell<String> = std::cell::RefCell::new(String::new());
+    static CST_EXP: std::cell::Cell<i32> = std::cell::Cell::new(0);
 }
 
 fn kv<'a>(t: &'a [&'a str], k: &str) -> Option<&'a str> {
@@ -119,8 +122,10 @@ fn gen_slots(seed: u64, m: usize, mag: f64) -> (Vec<f64>, Vec<f64>) {
 fn cst_vals(seed: u64, re: bool, im: bool) -> (Option<f64>, Option<f64>) {
     let mut s = seed.wrapping_mul(0x2545F4914F6CDD1D) ^ 0x9E3779B97F4A7C15;
     // |c| < 0.5: a constant of precision {log_delta, 0} with log_delta a multiple of base2k holds only (-0.5, 0.5)
-    let r = lcg(&mut s) * 0.45;
-    let i = lcg(&mut s) * 0.45;
+    // `cstexp=E` (replays of the float → integer conversion limit only): constants scaled by 2^E
+    let sc = (CST_EXP.with(|c| c.get()) as f64).exp2();
+    let r = lcg(&mut s) * 0.45 * sc;
+    let i = lcg(&mut s) * 0.45 * sc;
     (if re { Some(r) } else { None }, if im { Some(i) } else { None })
 }
 
@@ -1138,6 +1143,7 @@ macro_rules! backend_impl {
                 let pool_s = kv(t, "pool").unwrap_or("");
                 let want_vals = kvu(t, "vals", 0) == 1;
                 let mag = kv(t, "mag").and_then(|s| s.parse::<f64>().ok()).unwrap_or(1.0);
+                CST_EXP.with(|c| c.set(kv(t, "cstexp").and_then(|s| s.parse::<i32>().ok()).unwrap_or(0)));
                 let specs: Vec<(usize, usize, usize)> = pool_s
                     .split('/')
                     .filter(|s| !s.is_empty() && *s != "-")
@@ -1251,6 +1257,75 @@ macro_rules! backend_impl {
                 if want_vals { format!("{} {}", out.join("|"), diag.join("|")) } else { out.join("|") }
             }
 
+            /// `toznx float=… form=vec|cst base2k= delta= budget= [k=] vals=m:e;…|nan|inf|-inf`:
+            /// the float → integer conversion of `CKKSPlaintextVecRnx::to_znx` (one coefficient per value, `n` =
+            /// number of values) and of `CKKSPlaintextCstRnx::to_znx_at_k` (`vals` = re[;im], `k` explicit) on
+            /// exactly given inputs `m·2^e`.  Answer: `ok <digits>` (limbs most significant first, `.`-joined;
+            /// coefficients `,`-joined; cst: `re/im`, `-` = absent), `err:other`, `panic:unwrap-none` / `panic:<class>`.
+            pub fn toznx(t: &[&str]) -> String {
+                let base2k = kvu(t, "base2k", 52);
+                let meta = CKKSMeta { log_delta: kvu(t, "delta", 40), log_budget: kvu(t, "budget", 10) };
+                let k = kvu(t, "k", 0);
+                let form = kv(t, "form").unwrap_or("vec").to_string();
+                fn mk(s: &str) -> Option<F> {
+                    match s {
+                        "nan" => return Some(<F as num_traits::Float>::nan()),
+                        "inf" => return Some(<F as num_traits::Float>::infinity()),
+                        "-inf" => return Some(<F as num_traits::Float>::neg_infinity()),
+                        "-" => return None,
+                        _ => {}
+                    }
+                    // a sum of exactly representable terms `m:e` = m·2^e (`+`-separated; the caller keeps the sum exact)
+                    let mut acc = to_f(0.0);
+                    for term in s.split('+') {
+                        let (m, e) = term.split_once(':')?;
+                        let (m, e): (i64, i32) = (m.parse().ok()?, e.parse().ok()?);
+                        let mut x = <F as num_traits::FromPrimitive>::from_i64(m)?;
+                        let f = if e > 0 { to_f(2.0) } else { to_f(0.5) };
+                        for _ in 0..e.unsigned_abs() {
+                            x = x * f;
+                        }
+                        acc = acc + x;
+                    }
+                    Some(acc)
+                }
+                let raw: Vec<&str> = kv(t, "vals").unwrap_or("").split(';').filter(|x| !x.is_empty()).collect();
+                let vals: Vec<Option<F>> = raw.iter().map(|s| mk(s)).collect();
+                let r = std::panic::catch_unwind(|| -> anyhow::Result<String> {
+                    if form == "cst" {
+                        let c = CKKSPlaintextCstRnx::<F>::new(vals.first().copied().flatten(), vals.get(1).copied().flatten());
+                        let z = c.to_znx_at_k(Base2K(base2k as u32), k, meta.log_delta)?;
+                        let show = |d: Option<&[i64]>| match d {
+                            None => "-".to_string(),
+                            Some(v) => v.iter().map(|x| x.to_string()).collect::<Vec<_>>().join("."),
+                        };
+                        Ok(format!("ok {}/{} meta={}.{}", show(z.re()), show(z.im()), z.log_delta(), z.log_budget()))
+                    } else {
+                        let n = vals.len();
+                        let mut rnx = CKKSPlaintextVecRnx::<F>::alloc(n)?;
+                        for (dst, v) in rnx.data_mut().iter_mut().zip(vals.iter()) {
+                            *dst = v.unwrap_or(to_f(0.0));
+                        }
+                        let mut z = CKKSPlaintextVecZnx::alloc(Degree(n as u32), Base2K(base2k as u32), meta);
+                        rnx.to_znx(&mut z)?;
+                        let size = z.size();
+                        let mut out = Vec::new();
+                        for i in 0..n {
+                            out.push((0..size).map(|j| z.data().at(0, j)[i].to_string()).collect::<Vec<_>>().join("."));
+                        }
+                        Ok(format!("ok {}", out.join(",")))
+                    }
+                });
+                match r {
+                    Ok(Ok(s)) => s,
+                    Ok(Err(_)) => "err:other".to_string(),
+                    Err(_) => {
+                        let msg = LAST_PANIC.with(|m| m.borrow().clone());
+                        if msg.contains("`None` value") { "panic:unwrap-none".to_string() } else { format!("panic:{}", panic_class(&msg)) }
+                    }
+                }
+            }
+
             /// encode → to_znx → decode_from_znx → decode: max slot error and the encoder-only error
             pub fn roundtrip(t: &[&str]) -> String {
                 let n = kvu(t, "n", 16);
@@ -1337,7 +1412,9 @@ pub fn run(_args: &[String]) {
             continue;
         }
         let id = t[0];
-        let ans = if t[1] == "roundtrip" {
+        let ans = if t[1] == "toznx" {
+            if kv(&t[2..], "float") == Some("f128") { ntt120ref128::toznx(&t[2..]) } else { ntt120ref::toznx(&t[2..]) }
+        } else if t[1] == "roundtrip" {
             if kv(&t[2..], "float") == Some("f128") { ntt120ref128::roundtrip(&t[2..]) } else { ntt120ref::roundtrip(&t[2..]) }
         } else {
             let be = kv(&t[1..], "be").unwrap_or("ntt120ref");
